@@ -353,6 +353,9 @@ let run_case (x : sx) : Stdlib.String.t =
                   let fs = List.map fstep_of steps in
                   let ks = if List.exists is_filter steps then [] else List.map rstep_of steps in
                   let text = match getf "nodollar", getf "pad", ks with
+                    | _, [A a; A b], _ when getf "keyf" <> [] ->
+                        fpadded_fun_path (nat_of_int (int_of_string a)) (nat_of_int (int_of_string b)) fs
+                          (List.map (function L l -> cp l | _ -> failwith "bad function name") (getf "keyf"))
                     | _ when List.exists is_filter steps && getf "keyf" <> [] ->
                         fchain_fun_path fs (List.map (function L l -> cp l | _ -> failwith "bad function name") (getf "keyf"))
                     | [A "1"], _, _ when List.exists is_filter steps ->
